@@ -927,6 +927,75 @@ def _perm_ryser(a):
     return total
 
 
+def _scc_sizes(adj):
+    """Sizes of the strongly connected components of a digraph given as a boolean matrix (Tarjan)."""
+    n = len(adj)
+    index, low, on, stack, sizes, counter = {}, {}, set(), [], [], [0]
+
+    def visit(v):
+        work = [(v, iter([w for w in range(n) if adj[v][w]]))]
+        index[v] = low[v] = counter[0]
+        counter[0] += 1
+        stack.append(v)
+        on.add(v)
+        while work:
+            node, it = work[-1]
+            advanced = False
+            for w in it:
+                if w not in index:
+                    index[w] = low[w] = counter[0]
+                    counter[0] += 1
+                    stack.append(w)
+                    on.add(w)
+                    work.append((w, iter([x for x in range(n) if adj[w][x]])))
+                    advanced = True
+                    break
+                if w in on:
+                    low[node] = min(low[node], index[w])
+            if advanced:
+                continue
+            work.pop()
+            if work:
+                low[work[-1][0]] = min(low[work[-1][0]], low[node])
+            if low[node] == index[node]:
+                size = 0
+                while True:
+                    w = stack.pop()
+                    on.discard(w)
+                    size += 1
+                    if w == node:
+                        break
+                sizes.append(size)
+
+    for v in range(n):
+        if v not in index:
+            visit(v)
+    return sizes
+
+
+def _largest_block(nz):
+    """Size of the largest fully indecomposable block of a square 0/1 pattern with a perfect matching:
+    put a perfect matching on the diagonal (augmenting paths), then take strongly connected components."""
+    n = len(nz)
+    match_col = [-1] * n            # column -> row
+
+    def augment(r, seen):
+        for c in range(n):
+            if nz[r][c] and c not in seen:
+                seen.add(c)
+                if match_col[c] == -1 or augment(match_col[c], seen):
+                    match_col[c] = r
+                    return True
+        return False
+
+    for r in range(n):
+        if not augment(r, set()):
+            return 0
+    row_col = {match_col[c]: c for c in range(n)}
+    adj = [[bool(nz[i][row_col[j]]) for j in range(n)] for i in range(n)]
+    return max(_scc_sizes(adj))
+
+
 def _perm_glynn_float(a):
     """Permanent by Glynn's formula with Gray code, float64/longdouble (for blocks too large for Fractions)."""
     a = np.asarray(a, dtype=np.longdouble)
@@ -1029,9 +1098,17 @@ class C02Monitor(Monitor):
         got = out[np.ix_(idle, idle)]
         if not np.allclose(got, exact, rtol=rtol, atol=1e-6 if big else 1e-12):
             a, b = np.unravel_index(np.argmax(np.abs(got - exact)), got.shape)
+            # irreducible blocks of the idle matrix (the idle diagonal is non-zero): above 12 rows with
+            # unequal weights the code switches to a Monte-Carlo estimate
+            sub = mat[np.ix_(idle, idle)]
+            biggest = _largest_block(sub != 0)
+            site = "monte_carlo_block_gt_12" if biggest > 12 else None
+            err = float(np.max(np.abs(got - exact)))
+            if site and err > 0.15:
+                sim.violate("C02", "monte_carlo_far_off", f"block of {biggest}: max error {err}")
             sim.violate("C02", "prob_not_permanent_ratio",
-                        f"P[{idle[a]},{idle[b]}]={got[a,b]!r}, exact {exact[a,b]!r}; W_idle=\n"
-                        f"{mat[np.ix_(idle, idle)]}\nlocks {locks}")
+                        f"P[{idle[a]},{idle[b]}]={got[a,b]!r}, exact {exact[a,b]!r} (largest irreducible block "
+                        f"{biggest}); W_idle=\n{sub}\nlocks {locks}", site=site)
         if not (np.allclose(got.sum(axis=0), 1, atol=1e-9) and np.allclose(got.sum(axis=1), 1, atol=1e-9)):
             sim.violate("C02", "not_doubly_stochastic", f"row sums {got.sum(axis=1)}, col sums {got.sum(axis=0)}")
         weighted = bool(np.any((mat != 0) & (mat != 1)))
